@@ -146,7 +146,7 @@ class StrategySym:
         if repr(b) < repr(a):
             a, b = b, a
         if self.mode == 'reld':
-            return not rt.decide(('Rd', rt.D(down), a, b))
+            return not rt.decide(('Rd', rt.D(up) + '\x02' + rt.D(down), a, b))
         return not rt.decide(('R', a, b))
 
     def get_input_list(self, node_idx, dag, jobs):
